@@ -23,9 +23,12 @@ Section Spec.
   Variable K : kind.
 
   (* like plain_spec but programmed items may be lost on the way (SX126x SetPacketType resets the modem parameters) *)
+  (* the LoRa modem is selected (SX127x: RegOpMode.LongRangeMode, writable in sleep mode only) *)
+  Definition lora_sel (m : mon) : Prop := x_fam x = K127 -> x_lora x = true -> valid m ILoraMode = true.
   Definition weak_spec {A} (want : list item) (p : prog A) : Prop :=
     forall (Q : A + rerr -> drv -> mon -> Prop) d m, okm m -> ready m ->
-      (forall r m', cm m' = cm m -> awake m' = awake m -> okm m' -> (is_ok r -> valid_all m' want) -> (forall e, r = inr e -> plain_err e) -> Q r d m') ->
+      (forall r m', cm m' = cm m -> awake m' = awake m -> okm m' -> (is_ok r -> valid_all m' want) -> (forall e, r = inr e -> plain_err e) ->
+                    (lora_sel m -> lora_sel m') -> Q r d m') ->
       wp x p Q d m.
 
   Record kind_ok := {
@@ -46,8 +49,10 @@ Section Spec.
        phase of a duty-cycled reception *)
     ok_ensure : forall dm (Q : unit + rerr -> drv -> mon -> Prop) d m, okm m ->
       (cm m = CSleep -> dm = MSleep \/ x_fam x = K127) -> (cm m = CDuty -> awake m = false -> is_duty dm = true) ->
-      (forall r m', okm m' -> le_valid m m' -> (cm m' = cm m \/ (cm m = CSleep /\ cm m' = CStby)) ->
-                    (is_ok r -> x_fam x = K126 \/ ready m -> ready m') -> pin_err r -> Q r d m') ->
+      (forall r m', okm m' -> le_valid m m' -> (cm m' = cm m \/ (cm m = CSleep /\ cm m' = CStby) \/ (dm = MSleep /\ cm m' = CSleep)) ->
+                    (is_ok r -> x_fam x = K126 \/ (ready m /\ dm <> MSleep) -> ready m') ->
+                    (* a chip the driver believes asleep has been put into LoRa mode when the wake-up went through *)
+                    (is_ok r -> x_fam x = K127 -> dm = MSleep -> valid m' ILoraMode = true) -> pin_err r -> Q r d m') ->
       wp x (k_ensure_ready K dm) Q d m;
     ok_standby : forall (Q : unit + rerr -> drv -> mon -> Prop) d m, okm m -> (x_fam x = K126 -> ready m) ->
       (forall r m', okm m' -> le_valid m m' -> (is_ok r -> cm m' = CStby) -> (cm m' = cm m \/ cm m' = CStby) -> pin_err r -> Q r d m') ->
@@ -56,7 +61,7 @@ Section Spec.
       (forall r m', (is_ok r -> okm m' /\ cm m' = CSleep /\ (warm = true -> le_valid m m')) -> (~ is_ok r -> m' = m) -> pin_err r -> Q r d m') ->
       wp x (k_sleep K warm) Q d m;
     ok_reset : forall (Q : unit + rerr -> drv -> mon -> Prop) d m, okm m ->
-      (forall r m', okm m' -> (cm m' = CStby \/ (cm m' = CSleep /\ x_fam x = K127)) -> pin_err r -> Q r d m') ->
+      (forall r m', okm m' -> (cm m' = CStby \/ (cm m' = CSleep /\ x_fam x = K127)) -> (is_ok r -> lora_sel m') -> pin_err r -> Q r d m') ->
       wp x (k_reset K) Q d m;
     ok_tx : forall (Q : unit + rerr -> drv -> mon -> Prop) d m, okm m -> ready m -> forallb (valid m) (need x StTx) = true ->
       (forall r m', okm m' -> le_valid m m' -> (is_ok r -> cm m' = CTx) -> (cm m' = cm m \/ cm m' = CTx) -> pin_err r -> Q r d m') ->
@@ -81,9 +86,11 @@ Section Spec.
                     (forall e, r = inr e -> e <> ECancelled) -> Q r d m') ->
       wp x (k_procirq K dm clear) Q d m;
     (* what the prepared states rely on is covered by what the prepare operations program *)
-    cover_tx : forall m, valid_all m (it_init ++ it_mod ++ it_power ++ it_pkt ++ it_chan ++ it_payload ++ it_irq) -> forallb (valid m) (need (no_listen x) StTx) = true;
-    cover_rx : forall m, valid_all m (it_init ++ it_mod ++ it_pkt ++ it_chan ++ it_irq) -> forallb (valid m) (need (no_listen x) StRx) = true;
-    cover_cad : forall m, valid_all m (it_init ++ it_mod ++ it_chan ++ it_irq) -> valid_all m it_cad;
-    cover_listen : forall m, x_listen x = true -> valid_all m (it_init ++ it_chan ++ it_mod) -> forallb (valid m) (need x StRx) = true
+    cover_tx : forall m, valid_all m (it_init ++ it_mod ++ it_power ++ it_pkt ++ it_chan ++ it_payload ++ it_irq) -> lora_sel m -> forallb (valid m) (need (no_listen x) StTx) = true;
+    cover_rx : forall m, valid_all m (it_init ++ it_mod ++ it_pkt ++ it_chan ++ it_irq) -> lora_sel m -> forallb (valid m) (need (no_listen x) StRx) = true;
+    cover_cad : forall m, valid_all m (it_init ++ it_mod ++ it_chan ++ it_irq) -> lora_sel m -> valid_all m it_cad;
+    cover_listen : forall m, x_listen x = true -> valid_all m (it_init ++ it_chan ++ it_mod) -> lora_sel m -> forallb (valid m) (need x StRx) = true;
+    (* a prepared CAD implies the LoRa modem is selected (so does a prepared TX / RX, through `need`) *)
+    cad_lora : forall m, valid_all m it_cad -> lora_sel m
   }.
 End Spec.
